@@ -376,21 +376,32 @@ def al_targets():
 
 
 def build(tier):
+    import core
+    import kkt
     vcs = []
     fns = []
-    r = kernel('linear_penalty_op', 'linear_penalty_function_t', '(* rho (rabs fc))', '(* rho (ite (>= fc 0.0) 1.0 (- 1.0)))',
-               'linear penalty term of one constraint')
-    vcs += r[0]; fns.append(r[1])
-    r = kernel('quadratic_penalty_op', 'quadratic_penalty_function_t', '(* rho (* fc fc))', '(* (* 2.0 rho) fc)', 'quadratic penalty term of one constraint')
-    vcs += r[0]; fns.append(r[1])
-    r = gating('penalty_vgrad', 'gating of the penalty term (equality or violated inequality)')
-    vcs += r[0]; fns += r[1]
-    r = al_body('augmented_lagrangian_do_vgrad', 'augmented Lagrangian term of one constraint')
-    vcs += r[0]; fns.append(r[1])
-    import kkt
-    vcs += kkt.criterion(fns)
-    vcs += kkt.ro1(fns)
-    vcs += kkt.kkt(fns)
+
+    def one(f, *args):
+        def job():
+            r = f(*args)
+            return r[0], (r[1] if isinstance(r[1], list) else [r[1]])
+        return job
+
+    def own(f):
+        def job():
+            info = []
+            return f(info), info
+        return job
+    # one clang run per (translation unit, filter): the pieces are independent, run them side by side
+    jobs = [one(kernel, 'linear_penalty_op', 'linear_penalty_function_t', '(* rho (rabs fc))', '(* rho (ite (>= fc 0.0) 1.0 (- 1.0)))',
+                'linear penalty term of one constraint'),
+            one(kernel, 'quadratic_penalty_op', 'quadratic_penalty_function_t', '(* rho (* fc fc))', '(* (* 2.0 rho) fc)', 'quadratic penalty term of one constraint'),
+            one(gating, 'penalty_vgrad', 'gating of the penalty term (equality or violated inequality)'),
+            one(al_body, 'augmented_lagrangian_do_vgrad', 'augmented Lagrangian term of one constraint'),
+            own(kkt.criterion), own(kkt.ro1), own(kkt.kkt)]
+    for v, f in core.parallel(jobs, workers=4):
+        vcs += v
+        fns += f
     # corollary (pure SMT lemma on the formulas): at a feasible point with zero multipliers every term vanishes
     vcs.append(VC('lemma/feasible point, zero multipliers: every penalty and AL term is 0',
                   '(declare-const rho Real)(declare-const h Real)(declare-const g Real)(assert (> rho 0.0))(assert (= h 0.0))(assert (<= g 0.0))\n'
